@@ -364,9 +364,19 @@ func TH3(x int) *rt.Co[int] {
 		yield_(x + 4000)
 	})
 }
+
+func TPN(x int) *rt.Co[int] {
+	return rt.NewCo(func(yield_ func(int)) {
+		yield_(x + 5000)
+		if x%2 == 0 {
+			panic(nil)
+		}
+		yield_(x + 6000)
+	})
+}
 """ + TWIN_HELPERS["H2"]
 
-_TW_CALL = __import__("re").compile(r"\b(H[1-4]|R[12]|MK)\(")
+_TW_CALL = __import__("re").compile(r"\b(H[1-4]|R[12]|MK|PN)\(")
 
 
 def twin_body(body, lax=False):
@@ -491,7 +501,7 @@ class Program:
             lines.append(helpers)
         lines.append(getattr(self, "twin_driver", None) or std_driver(name, K, extra_adv, nlo, nhi, self.ret_type))
         text = "\n".join(lines) + "\n"
-        for h in ("H1", "H2", "H3", "H4", "R1", "R2", "PT", "PS", "MK"):
+        for h in ("H1", "H2", "H3", "H4", "R1", "R2", "PT", "PS", "PN", "MK"):
             text = text.replace(h + "(", "%s_%s(" % (h, self.pid))
         return text
 
@@ -549,7 +559,7 @@ class Program:
         lines.append(self.driver if self.driver else std_driver(self.name, K, extra_adv, nlo, nhi, self.ret_type))
         text = "\n".join(lines) + "\n"
         # helper functions are private to the program: make their names unique in the package
-        for h in ("H1", "H2", "H3", "H4", "R1", "R2", "PT", "PS", "MK"):
+        for h in ("H1", "H2", "H3", "H4", "R1", "R2", "PT", "PS", "PN", "MK"):
             text = text.replace(h + "(", "%s_%s(" % (h, self.pid))
         return text
 
@@ -1094,14 +1104,17 @@ def panic_driver(name, K, nlo=-1, nhi=3):
 	for k := 0; k < %(K)d; k++ {
 		stop := false
 		func() {
+			returned := false
 			defer func() {
-				if r := recover(); r != nil {
+				// a panic whose value is nil (panic(nil) before go 1.21, a nil error) is a panic too
+				if r := recover(); r != nil || !returned {
 					rt.EmitPanic(rt.PANIC, r)
 					stop = true
 				}
 			}()
 			rt.Emit(rt.ADV_BEGIN, k)
 			ok := it.MoveNext()
+			returned = true
 			if !ok {
 				rt.Emit(rt.ADV_END, 0)
 				stop = true
@@ -1125,6 +1138,9 @@ PANIC_SITES = [
     lambda c: ("raw", "var pm map[int]int\npm[1] = a"),
     lambda c: ("raw", "var pp *int\nrt.Emit(43, *pp)"),
     lambda c: ("raw", "panic(\"boom\")"),
+    lambda c: ("raw", "panic(nil)"),
+    lambda c: ("raw", "var pe error\npanic(pe)"),
+    lambda c: ("yieldfrom", "PN(a)"),
     lambda c: ("yieldfrom", "H3(a)"),
     lambda c: ("raw", "for pi := range PT(a) {\n\tYield(pi + 980)\n}"),
     lambda c: ("raw", "for range PT(b) {\n\trt.Emit(rt.EFF, 981)\n}"),
@@ -1146,6 +1162,15 @@ func PS(x int) []int {
 		panic("ps")
 	}
 	return []int{4, 5}
+}
+
+func PN(x int) (_ Iter[int]) {
+	Yield(x + 5000)
+	if x%2 == 0 {
+		panic(nil)
+	}
+	Yield(x + 6000)
+	return
 }
 
 func H3(x int) (_ Iter[int]) {
@@ -1601,7 +1626,10 @@ def c04_programs(strlens=(0, 1, 2, 3), only_int=False):
     kinds.append(("array", ["arr := [3]int{a, b, a + 1}"], "arr", "int", "int", ["arr[1] = b + 7", "arr[2] = arr[0] + 1"]))
     kinds.append(("mapii", ["m := map[int]int{1: a, 2: b, 3: a + b}"], "m", "int", "int", ["delete(m, 2)", "m[3] = b + 7", "delete(m, 3)"]))
     kinds.append(("mapnil", ["var m map[int]int"], "m", "int", "int", []))
-    kinds.append(("chan", ["ch := make(chan int, 3)\nch <- a\nch <- b\nclose(ch)"], "ch", "int", None, []))
+    # observers between receives: the number of buffered elements, a second receiver
+    kinds.append(("chan", ["ch := make(chan int, 3)\nch <- a\nch <- b\nch <- a + b\nclose(ch)"], "ch", "int", None,
+                  ["rt.Emit(40, len(ch))", "if w, ok := <-ch; ok {\n\trt.Emit(41, w)\n}"]))
+
     kinds.append(("ptrarray", ["pa := [3]int{a, b, a + 1}"], "&pa", "int", "int", ["pa[1] = b + 7"]))
     # the range expression is a call with an effect: it must be evaluated exactly once
     kinds.append(("callslice", ["gets := func() []int {\n\trt.Emit(rt.EFF, 71)\n\treturn []int{a, b, a + b}\n}"], "gets()", "int", "int", []))
@@ -1930,6 +1958,9 @@ C13_BODIES = [
     ("eta_generic_explicit", "f := func(x int) int { return idg@[int](x) }\nreturn f(a) + b"),
     ("eta_declared", "f := func(x int) int { return dbl@(x) }\nreturn f(a) + fnv@(b)"),
     ("eta_pkg_var", "old := fnv@\nf := func(x int) int { return fnv@(x) }\nr := f(a)\nfnv@ = func(x int) int { return x + 100 }\nr = (r << 4) ^ f(a)\nfnv@ = old\nreturn r"),
+    ("eta_variadic_literal_no_spread", "f := func(xs ...any) int { return vcount@(xs) }\ng := func(xs ...any) int { return vcount@(xs...) }\nreturn (f(a, b, 1) << 4) ^ g(a, b)"),
+    ("hand_written_bind_unstable_callee", "next := func() SEQPKG.Seq[int] { return SEQPKG.Bind[int](a+1, SEQPKG.Normal[int]) }\nit := SEQPKG.Start[int](SEQPKG.Bind[int](a, func() SEQPKG.Seq[int] { return next() }))\nnext = func() SEQPKG.Seq[int] { return SEQPKG.Bind[int](b+2, SEQPKG.Normal[int]) }\nr := 0\nfor it.MoveNext() {\n\tr = r*16 + it.Current()\n}\nreturn r"),
+    ("hand_written_bind_method_value_callee", "st := &stage@{}\nit := SEQPKG.Start[int](SEQPKG.Bind[int](a, func() SEQPKG.Seq[int] { return st.rest() }))\nr, k := 0, 0\nfor it.MoveNext() {\n\tr = r*16 + it.Current()\n\tif k < 2 {\n\t\tk++\n\t\tst.more++\n\t\tst.v = b + k\n\t}\n}\nreturn r"),
     ("closure_capture", "s := 0\nadd := func(d int) { s += d }\nget := func() int { return s }\nadd(a)\nr := get()\nadd(b)\nreturn (r << 4) ^ get()"),
     ("global_state", "cnt@ += a\nr := cnt@\ncnt@ = 0\nreturn r + k@"),
     ("eta_method_expr", "p := pt@{a, b}\nf := func(q pt@) int { return q.Sum() }\nreturn f(p)"),
@@ -1943,6 +1974,22 @@ C13_EXTRA = """func max@(x, y int) int {
 		return x
 	}
 	return y
+}
+
+func vcount@(xs ...any) int { return len(xs) }
+
+func catch@() any { return recover() }
+"""
+
+# hand-written combinator terms in a processed file (the optimiser sees them like generated ones)
+C13_SEQ = """type stage@ struct{ v, more int }
+
+func (s *stage@) rest() SEQPKG.Seq[int] {
+	if s.more == 0 {
+		return SEQPKG.Normal[int]()
+	}
+	s.more--
+	return SEQPKG.Bind[int](s.v, func() SEQPKG.Seq[int] { return s.rest() })
 }
 """
 
@@ -1959,7 +2006,7 @@ def c13_programs(bodies=None):
     progs = []
     for name, body in (bodies or C13_BODIES):
         pid = "b_%s" % name
-        text = C13_COMMON + C13_EXTRA + "\nfunc B@(a, b int, g1 bool) int {\n" + indent(body, 1) + "\n}\n"
+        text = C13_COMMON + C13_EXTRA + (C13_SEQ if "SEQPKG." in body else "") + "\nfunc B@(a, b int, g1 bool) int {\n" + indent(body, 1) + "\n}\n"
         driver = """func Drive_G@() {
 	a, b := rt.NondetInt(1), rt.NondetInt(2)
 	g1 := rt.NondetBool(4)
